@@ -197,7 +197,8 @@ package transmit
 //@   arith math
 //@   assert only none
 //@   requires d != nil
-//@   loop 1 invariant[the-table-is-scanned-every-quarter-of-the-timeout] tickerPeriod(batchTicker) == toInt(d.batchTimeout) / 4
+// (a shorter period would do as well: the bound only needs scans at most a quarter of the timeout apart)
+//@   loop 1 invariant[the-table-is-scanned-every-quarter-of-the-timeout] tickerPeriod(batchTicker) <= toInt(d.batchTimeout) / 4
 //@   modifies all(goN)
 //@ fragment transmit.(*DirectTransmission).dispatchStaleBatches loop 3 body props C26 noinv
 //@   arith math
